@@ -193,11 +193,11 @@ def run_pair(pair):
     d = tempfile.mkdtemp(prefix='dt2-')
     try:
         cf = os.path.join(d, 'p.c'); open(cf, 'w').write(src)
-        r = subprocess.run(['gcc', '-w', '-O0', '-fsanitize=undefined,float-cast-overflow', '-o', os.path.join(d, 'p'), cf], capture_output=True, text=True)
+        r = subprocess.run(['gcc', '-w', '-O0'] + (['-funsigned-char'] if os.environ.get('CPROC_TARGET') in ('aarch64', 'riscv64') else []) + [ '-fsanitize=undefined,float-cast-overflow', '-o', os.path.join(d, 'p'), cf], capture_output=True, text=True)
         if r.returncode: return pair, 'gen-error', r.stderr[:500], src
         n = subprocess.run([os.path.join(d, 'p')], capture_output=True, text=True, timeout=120)
         if 'runtime error' in n.stderr: return pair, 'gen-ub', n.stderr[:400], src
-        c = subprocess.run([CPROC, cf], capture_output=True, text=True)
+        c = subprocess.run([CPROC] + (['-t', os.environ['CPROC_TARGET']] if os.environ.get('CPROC_TARGET') else []) + [cf], capture_output=True, text=True)
         if c.returncode: return pair, 'cproc-reject', c.stderr[:400], src
         try:
             rv, out = qbei.run(c.stdout, max_steps=200_000_000)
